@@ -381,7 +381,12 @@ def delete_consumers(consumers):
     """
     for consumer in consumers:
         try:
-            consumer.delete()
+            # Only remove the record if nothing has been allocated to the
+            # consumer in the meantime: a racing request that found the
+            # record we created may have successfully written allocations
+            # for it, which must not be left without their consumer.
+            consumer_obj.delete_consumers_if_no_allocations(
+                consumer._context, [consumer.uuid])
             LOG.debug("Deleted auto-created consumer with consumer UUID "
                       "%s after failed allocation", consumer.uuid)
         except Exception as err:
